@@ -416,8 +416,10 @@ class Run:
             "violations": len(printed),
         }
         ev["coverage"].update(self.extra)
-        os.makedirs(os.path.join(VERIF, "evidence"), exist_ok=True)
-        with open(os.path.join(VERIF, "evidence", "%s.json" % self.pid), "w") as f:
+        # a run redirected to a scratch tree (mutation / seeded-change test) must not overwrite the evidence of /repo
+        evdir = os.path.join(BUILD, "evidence") if os.environ.get("VERIF_BUILD") else os.path.join(VERIF, "evidence")
+        os.makedirs(evdir, exist_ok=True)
+        with open(os.path.join(evdir, "%s.json" % self.pid), "w") as f:
             json.dump(ev, f, indent=1, default=show)
         log("[%s] %s tier, seed %s: obligations %d/%d, evaluations %d, violations %d, known %d, %.1fs" % (
             self.pid, self.tier, self.seed, len(self.discharged), len(self.obligations),
